@@ -192,6 +192,22 @@ CHECKS["C14"] = dict(
     technique="TLA+ model N2KClient + property monitor model-checked by TLC; event logs of real clients with close() at every loop step validated by TLC",
 )
 
+CHECKS["C19"] = dict(
+    level="model_checking",
+    text=("TLC model-checks send() (spec/N2KSend.tla, MC_Send): three concurrent calls of 1- and 3-packet messages and unsendable "
+          "messages, every pattern of drain() suspending or not, a failing write or drain at any packet; with the send lock the wire "
+          "always has block structure (Contiguous), unsendable messages write nothing and change nothing (Harmless), a failing write "
+          "leads to DISCONNECTED and a spawned connect (WriteFault); without the lock TLC yields the interleaving that the code as "
+          "found exhibited. The real EByte, Yacht Devices and Waveshare clients are then run on the virtual-time loop with a fake "
+          "writer: concurrent send() tasks (single/multi-frame, together or staggered by loop steps) x drain patterns x a write or "
+          "drain failure at each packet followed by reconnection and further sends x messages that cannot be sent (missing field, "
+          "out-of-range value, unknown PGN, any message on the Actisense client); a mirror encoder defines each call's packets and "
+          "TLC judges every session: no foreign packet, no interleaving, order, completeness, harmlessness, failure reported and reconnected."),
+    note="Trusted: TLC; the virtual-time loop and fake writer; packets mapped to (call, index) tokens by content against a mirror encoder.",
+    design="5/C19",
+    technique="TLA+ model of send() model-checked by TLC (with/without lock); recorded send sessions of real clients validated by TLC",
+)
+
 NOT_YET = {
 }
 
